@@ -64,7 +64,15 @@ func seqSpecFor(id, tier string) *SeqSpec {
 // exploreGroups: schedule-exploration parts of a property (group name -> preemption bounds per tier)
 // unboundedPass: scenario groups that are also explored without a preemption bound under the
 // sleep-set reduction, and in which tiers
-var unboundedPass = map[string]string{}
+// unboundedIsExtra: the unbounded pass runs in addition to a complete bounded pass; whether it
+// finished is then reported on its own and does not change "exhaustive"
+var unboundedIsExtra bool
+
+var unboundedPass = map[string]string{
+	// additional pass: every schedule without preemption bound under the partial-order reduction
+	"C08/lin": "thorough", "C08/tx": "thorough", "C09/tx": "thorough",
+	"C11/block": "thorough", "C12/end": "thorough",
+}
 
 type exploreGroup struct {
 	name           string
@@ -160,7 +168,9 @@ func runCheck(id, tier string) int {
 			}
 			// unbounded pass: every schedule (no preemption bound) modulo commuting steps
 			if unb {
+				unboundedIsExtra = !instead
 				runExploreSel(id, g.name, all, -1, tier, rep, func(sc *Scenario) bool { return !sc.BoundedOnly })
+				unboundedIsExtra = false
 			}
 		}
 		ran = true
